@@ -250,3 +250,8 @@ def run(ctx):
         "connections; the gate is opened through the server child's stdin; the hostile client reads its sockets (a client that "
         "stops reading is outside the alphabet: see design-notes/C12.md, not covered)",
     ]
+
+    # the observation modes of a served object (statistics, tracing) and what they do to the message path
+    # (ObjectModes.tla, design-notes/EXT-modes.md); classes outside this property's statement are observations
+    import ext_modes
+    ext_modes.run(ctx)
